@@ -45,6 +45,9 @@ C03_Status(C, A, R) ==
       /\ (R.status = "Success" /\ ~C.hasT /\ C.x0.b # C.xend.b => Last(R.t).r >= C.m.xend_lo)       \* last sample is xend to rounding
       /\ (R.status = "Success" /\ C.x0.b # C.xend.b /\ C.n > 0 => A.maxEval >= C.m.xend_lo)             \* the interval was covered
       /\ (R.status = "UserInterrupt" <=> TermReached(C, R) # {})
+      \* "Success exactly when the whole interval was covered": a run whose last sample is xend is not reported as a failure
+      /\ (R.status \notin {"Success", "UserInterrupt"} /\ ~C.hasT /\ ~C.hasFs /\ Len(R.t) >= 1 /\ C.x0.b # C.xend.b
+             => Last(R.t).r < C.m.xend_lo)
       /\ (C.errctl => R.finite)       \* an error-controlled method never accepts a non-finite state: Success or not, the samples are finite
 
 (* ---------------------------------------------------------------- C04 *)
@@ -109,6 +112,8 @@ C09_Recorded(C, R) ==
                 \* an exact zero at a reported step end: reported from one of the two adjacent steps
                 /\ (k + 1 <= nb /\ r = 0 /\ Opp(l, R.gsign[i][k + 2], C.events[i].dir) =>
                        Cardinality({ j \in 1..Len(R.t_events[i]) : R.t[k].r <= R.t_events[i][j].r /\ R.t_events[i][j].r <= R.t[k + 2].r }) >= 1)
+\* a terminal count that was reached stops the run with UserInterrupt
+C10_Honoured(C, R) == (IsSol(R) /\ TermReached(C, R) # {}) => R.status = "UserInterrupt"
 C10_Recorded(C, R) ==
     (IsSol(R) /\ R.status = "UserInterrupt") =>
       /\ Len(R.t) >= 1
